@@ -94,7 +94,7 @@ theorem nest_crash (s : State) (w : String) : Nest s (s.crash w) := by
 
 theorem nest_count (cfg : Cfg) (s : State) (t : Int) : Nest s (countMsg cfg s t) := by
   unfold countMsg; split
-  · exact Nest.refl s
+  · exact nest_same rfl rfl rfl rfl rfl rfl rfl rfl ⟨[], by simp, by simp⟩
   · exact nest_same rfl rfl rfl rfl rfl rfl rfl rfl ⟨[], by simp, by simp⟩
 
 /-- an update that leaves everything but the two counters alone -/
